@@ -372,6 +372,12 @@ impl Env {
             self.fault = fault.clone();
         }
         self.rng = Rng::new(mix(self.cfg.dev_seed, "devrng-op", idx as u64));
+        if let Some((v, k)) = self.txn.rng_stuck {
+            for _ in 0..k {
+                self.forced_draws.push_back(v);
+            }
+            self.bump("fault.rng-stuck");
+        }
         self.draws_in_call = 0;
         self.push(Ev::OpStart { idx, desc });
     }
